@@ -161,8 +161,14 @@ class Env:
         orig = reader.read_received_message
 
         def read_received_message(xml_text, validate=True):
-            r = orig(xml_text, validate=validate)
-            if self.watch_trees and xml_text is not None and b'<!DOCTYPE' in xml_text:
+            watch = self.watch_trees and xml_text is not None and b'<!DOCTYPE' in xml_text
+            try:
+                r = orig(xml_text, validate=validate)
+            except Exception:
+                if watch:
+                    self.tree_log.append([('refused', None, None, None)])
+                raise
+            if watch:
                 found = []
                 try:
                     root = r.p_msg._doc_root
@@ -1089,6 +1095,8 @@ def run_case(env: Env, ctx, role, raw, info, seed_name):
                 elif kind_f == 'text':
                     ctx.witness('xxe.entity_expanded_in_tree', 'parsed request tree contains expanded entity text',
                                 {**detail, 'element': elem, 'value': val, 'statuses': ok_status})
+                elif kind_f == 'refused':
+                    ctx.count('xxe.doctype_document_refused_by_reader')
                 else:
                     ctx.count('xxe.tree_walk_failed')
     # ---- (8) rejected => nothing changed
